@@ -91,5 +91,72 @@ theorem notifyQuery_world (w w' : P64.World) (b : P64.batchArchetypes) (ext ext'
       have := entryStep_world archGetEntityF archHasRelCompF archMaskF archNodeF archRelCompF archTargetF lstCompsF lstSubsF nodeMaskF notifyF b s.1 s.2 k s' hk
       rw [this]; exact hs) _ _ _ rfl h
 
+/-- **a listener without subscriptions is told nothing**: when the listener subscribes to no event type, an entry of the
+    batch changes neither the world nor the hidden state (no call of `Notify`) -/
+theorem entryStep_silent (hq : ∀ e l, lstSubsF e l = 0#8)
+    (b : P64.batchArchetypes) (w : P64.World) (ext : Ext) (i : Nat) (r : P64.World × Ext)
+    (h : entryStep archGetEntityF archHasRelCompF archMaskF archNodeF archRelCompF archTargetF lstCompsF lstSubsF nodeMaskF notifyF b (w, ext) i = some r) :
+    r = (w, ext) := by
+  unfold entryStep at h
+  simp only [Option.bind_eq_bind, pure] at h
+  obtain ⟨x8, -, h1⟩ := Option.bind_eq_some_iff.mp h
+  obtain ⟨x7, -, h2⟩ := Option.bind_eq_some_iff.mp h1
+  obtain ⟨x6, e6, h3⟩ := Option.bind_eq_some_iff.mp h2
+  obtain ⟨x5, -, h4⟩ := Option.bind_eq_some_iff.mp h3
+  obtain ⟨x4, -, h5⟩ := Option.bind_eq_some_iff.mp h4
+  obtain ⟨x3, -, h6⟩ := Option.bind_eq_some_iff.mp h5
+  obtain ⟨x2, -, h7⟩ := Option.bind_eq_some_iff.mp h6
+  obtain ⟨x1, -, h8⟩ := Option.bind_eq_some_iff.mp h7
+  obtain ⟨y, ey, h9⟩ := Option.bind_eq_some_iff.mp h8
+  obtain ⟨z, ez, h10⟩ := Option.bind_eq_some_iff.mp h9
+  clear h h1 h2 h3 h4 h5 h6 h7 h8 h9
+  have k6 : x6.1 = w ∧ x6.2.1 = ext := by
+    split at e6
+    · obtain ⟨_, -, e⟩ := Option.bind_eq_some_iff.mp e6
+      cases e; exact ⟨rfl, rfl⟩
+    · cases e6; exact ⟨rfl, rfl⟩
+  have ky : y.1 = x6.1 ∧ y.2.1 = x6.2.1 := by
+    split at ey
+    · obtain ⟨_, -, e1⟩ := Option.bind_eq_some_iff.mp ey
+      obtain ⟨a, ea, e2⟩ := Option.bind_eq_some_iff.mp e1
+      obtain ⟨c, ec, e3⟩ := Option.bind_eq_some_iff.mp e2
+      obtain ⟨_, -, e4⟩ := Option.bind_eq_some_iff.mp e3
+      obtain ⟨_, -, e5⟩ := Option.bind_eq_some_iff.mp e4
+      obtain ⟨_, -, e6'⟩ := Option.bind_eq_some_iff.mp e5
+      obtain ⟨_, -, e7⟩ := Option.bind_eq_some_iff.mp e6'
+      obtain ⟨_, -, e8⟩ := Option.bind_eq_some_iff.mp e7
+      obtain ⟨_, -, e9⟩ := Option.bind_eq_some_iff.mp e8
+      obtain ⟨_, -, e10⟩ := Option.bind_eq_some_iff.mp e9
+      cases e10
+      show c.1 = x6.1 ∧ c.2.1 = x6.2.1
+      have ka : a.1 = x6.1 ∧ a.2.1 = x6.2.1 := by
+        split at ea
+        · obtain ⟨_, -, e⟩ := Option.bind_eq_some_iff.mp ea
+          cases e; exact ⟨rfl, rfl⟩
+        · cases ea; exact ⟨rfl, rfl⟩
+      have kc : c.1 = a.1 ∧ c.2.1 = a.2.1 := by
+        split at ec
+        · obtain ⟨_, -, e⟩ := Option.bind_eq_some_iff.mp ec
+          cases e; exact ⟨rfl, rfl⟩
+        · cases ec; exact ⟨rfl, rfl⟩
+      exact ⟨kc.1.trans ka.1, kc.2.trans ka.2⟩
+    · cases ey; exact ⟨rfl, rfl⟩
+  have kz : z.1 = y.1 ∧ z.2.1 = y.2.1 := by
+    simp only [hq, BitVec.zero_and, bne_self_eq_false, Bool.false_and, Bool.false_eq_true, if_false] at ez
+    cases ez; exact ⟨rfl, rfl⟩
+  cases h10
+  show (z.1, z.2.1) = (w, ext)
+  rw [kz.1, kz.2, ky.1, ky.2, k6.1, k6.2]
+
+/-- a batch notification to a listener without subscriptions delivers nothing at all -/
+theorem notifyQuery_silent (hq : ∀ e l, lstSubsF e l = 0#8) (w w' : P64.World) (b : P64.batchArchetypes) (ext ext' : Ext)
+    (h : P64.World.notifyQuery archGetEntityF archHasRelCompF archMaskF archNodeF archRelCompF archTargetF lstCompsF lstSubsF nodeMaskF notifyF w b ext = some (w', ext')) :
+    (w', ext') = (w, ext) := by
+  rw [notifyQuery_eq_fold] at h
+  exact Arche.Props.C02_Remove64.foldlM_inv (fun s => s = (w, ext)) _
+    (fun s k s' hs hk => by
+      have := entryStep_silent archGetEntityF archHasRelCompF archMaskF archNodeF archRelCompF archTargetF lstCompsF lstSubsF nodeMaskF notifyF hq b s.1 s.2 k s' hk
+      rw [this]; exact hs) _ _ _ rfl h
+
 end
 end Arche.Props.C12_NotifyWorld64
